@@ -169,7 +169,20 @@ def run(ctx):
     fs = FileStream(ctx, model, ctx.n(500, 20000), max_n=4)
     disagreements, violations, samples = [], [], []
     seen = set()
-    for i, segs, e, data, feats, new in fs:
+    def with_cuts():
+        # every file, and every fourth file also cut inside its last segment's raw data (truncated final chunk)
+        for i, segs, e, data, feats, new in fs:
+            yield i, segs, e, data, feats, new
+            if i % 4 == 0 and len(data) > 60:
+                try:
+                    last = nptdms.TdmsFile.open(cl.RecordingStream(data))._reader._segments[-1]
+                    lo, hi = last.data_position + 1, last.next_segment_pos - 1
+                except Exception:
+                    continue
+                if lo <= hi:
+                    stats["truncated_files"] = stats.get("truncated_files", 0) + 1
+                    yield i, segs, e, data[:ctx.rnd.randint(lo, hi)], feats, False
+    for i, segs, e, data, feats, new in with_cuts():
         try:
             f, _ = cl.open_real(data, nptdms)
         except Exception:
@@ -208,7 +221,7 @@ def run(ctx):
         violations += scaled_histories(ctx, model, nptdms, stats)
     return dict(violations=violations, disagreements=disagreements,
                 coverage=dict(evaluations=stats["ops"], distinct_nontrivial=stats["with_iter_interleaving"],
-                              rule=RULE_FILES + "; per file two random histories of 1-30 operations (for channels longer than 100 values two more that read the tail of every channel after touching the others) (index / slice / read_data / new channel iterator / new "
+                              rule=RULE_FILES + "; per file (every fourth file also cut inside its last segment) two random histories of 1-30 operations (for channels longer than 100 values two more that read the tail of every channel after touching the others) (index / slice / read_data / new channel iterator / new "
                                    "file iterator / next on any of up to 3 live iterators); non-trivial = distinct (file, history) pairs in which a direct read "
                                    "happens between two next() calls of a live iterator; plus histories on channels with Linear / Polynomial scalings mixing scaled and raw reads",
                               samples=samples, histories=stats["histories"], files=fs.drawn, feature_counts=dict(sorted(fs.feats.items()))))
